@@ -2,6 +2,7 @@ SPECIFICATION Spec
 CONSTANTS MaxBlock = 2 MaxOps = 5 MaxLen = 0
   Ms = {1}
   Takes = {0}
+  Srcs = {"iter"}
   SplitBufs <- SplitBufsQuick
   Variant = "legacy"
 INVARIANT RunIsBlocks
